@@ -79,7 +79,10 @@ Consume ==
            /\ IF c = ""
               THEN /\ st' = IF e.ev = "fork" THEN st ELSE r.st
                    /\ skip' = FALSE /\ nrej' = nrej /\ seen' = seen
-              ELSE IF e.res = r.res
+              ELSE IF e.res = r.res \/ ({e.res, r.res} = {"ongoing", "finished"})
+              \* (also when the call was accepted by both but they disagree on
+              \* whether it ended the auction: what is accepted or refused next
+              \* is then judged against the specification's state)
               \* the call was accepted / refused as specified but the state
               \* shown differs: report the clauses not yet reported for this
               \* trace and go on with the specification's state, so that later
